@@ -34,6 +34,14 @@ from . import common, docgen, encodecorr
 # ----------------------------------------------------------------------------- 1 + 2: documents the constructors accept
 
 
+def _model_silent(o) -> bool:
+    """the real encoder raised an exception of a class the encoder model never raises (the model mirrors every
+    exception of the unchanged encoder: the Python classes of `encodecorr._PYERR`) while the model, short of widths the
+    aborted pagination never measured, could only answer `model:…` — no modelled refusal explains the exception"""
+    return (o.get("verdict") == "error-kind" and str((o.get("model") or {}).get("error", "")).startswith("model:")
+            and o.get("exc") not in encodecorr._PYERR)
+
+
 def check_accepted(res, outs):
     """`outs` = outcomes of `encodecorr.run` (each constructed document carries `req` = state + measured widths)"""
     live = [o for o in outs if "req" in o]
@@ -78,9 +86,11 @@ def check_accepted(res, outs):
             # the real encoder raised before the pagination had measured every width; the model does not raise on the
             # complete table (else `holds` would have told) — nothing to conclude from the partial table
             res.count("total:in-quantifier:raised-before-measuring")
-            if o.get("verdict") not in ("real-error", "error-kind", "both-error"):
+            if o.get("verdict") not in ("real-error", "error-kind", "both-error") or _model_silent(o):
                 res.fail(case, f"rtf_encode() raises {o.get('exc')}: {o.get('msg', '')[:300]} on an accepted "
-                               "configuration inside C01's quantifier")
+                               "configuration inside C01's quantifier (accepted, shapesInQuantifier, contiguous keys "
+                               "hold; the encoder raised before the pagination had measured every width, so the model "
+                               "has no document to compare): the first clause of C01 fails on this input")
     return len(live)
 
 
@@ -435,9 +445,11 @@ def check_accepted_more(res, outs):
                                "clause of C01 fails on this input")
         else:
             res.count(f"total2:{path}:in-quantifier:raised-before-measuring")
-            if o.get("verdict") not in ("real-error", "error-kind", "both-error"):
+            if o.get("verdict") not in ("real-error", "error-kind", "both-error") or _model_silent(o):
                 res.fail(case, f"rtf_encode() raises {o.get('exc')}: {o.get('msg', '')[:300]} on an accepted {path} "
-                               "configuration inside C01's quantifier")
+                               "configuration inside C01's quantifier (acceptance, shapesInQuantifier, contiguous keys "
+                               "hold; the encoder raised before every section's widths were measured, so the model has "
+                               "no document to compare): the first clause of C01 fails on this input")
     return len(live)
 
 
